@@ -159,6 +159,16 @@ fn amb2(_: &mut Zw, a: u32) {
 fn pr(_: &mut Zw, p: Pair, n: i32) {
     log(format!("pr|{}|{n}", p.0));
 }
+// the same pattern under the same keyword on two functions (e.g. a step copy-pasted into another module): both are
+// registered, and a step matching it is ambiguous with BOTH listed
+#[given(regex = r"^dup (\d+)$")]
+fn dup1(_: &mut Zw, a: u32) {
+    log(format!("dup1|{a}"));
+}
+#[given(regex = r"^dup (\d+)$")]
+fn dup2(_: &mut Zw, a: u32) {
+    log(format!("dup2|{a}"));
+}
 type StepResult = Result<(), String>;
 type Fallible<T = ()> = Result<T, Box<dyn std::error::Error>>;
 #[when(regex = r"^alias (\w+)$")]
